@@ -100,8 +100,14 @@ class LDMMaintenance:
         data_object : dict
         """
         try:
+            stored = self.data_containers.get(index=data_object_id)
+            if stored is None:
+                raise KeyError(data_object_id)
+            # Only the content changes: provider, timestamp, location and validity stay
+            updated = dict(stored)
+            updated["dataObject"] = data_object
             self.data_containers.update(
-                data_object,
+                updated,
                 index=data_object_id,
             )
             self.logging.debug("Data container updated: %s", data_object_id)
